@@ -41,6 +41,15 @@ CLAIMED = {
     "C17": ("For every problem whose successors are in range: P[a,s,s'] is the total probability of the events leading to s' (several events accumulate), R[s,a] the expected immediate reward, row sums equal the event-probability sums, an error is returned iff some row deviates from one by more than the tolerance (every tolerance) and names the first worst (action, state) pair, accepted rows sum to one and equal the raw entries when the row is a distribution, and the backup computed from (P, R) equals the functional backup for every value function. The builder is run against the kernel-evaluated model on generated problems with colliding successors and defective rows (exact comparison of P, R and of the named pair).",
             "Coq 8.16.1 kernel; builder hand-modelled (Model/Matrices.v) tied by correspondence; vmap/scatter-add/unravel_index modelled by sums and first-argmax; float precision: x64 enabled first.",
             "Coq proof (regrouping by successor, error decision) + exact differential check of the builder", "6 C17"),
+    "C09": ("For every solver state machine: the final save of solve(k) snapshots exactly the loop's end state under its iteration number; continuing from that snapshot equals one uninterrupted run (any k1, k2; first leg not converged); a retained periodic snapshot carrying the final label is that same state; state and convergence flag are independent of checkpointing being on and of its frequency; restore-latest returns the last accepted save; every field an iteration reads is in the saved AND restored field lists translated from the source (exception stated: the PRNG key of shuffled semi-async). Tied by real interrupt/resume in FRESH processes (restore() and load_checkpoint() routes, 1-2 interruptions, all five solvers, frequency/retention/async grid) compared bit for bit with an uninterrupted process and with the model.",
+            "Coq 8.16.1 kernel; translators gen_fields.py / gen_loops.py; Orbax encode/decode and YAML config round trip are contracts validated by the fresh-process runs; store contract Model/Store.v.",
+            "Coq proof (resume = uninterrupted, transparency, field coverage over source-translated lists) + fresh-process interrupt/resume experiments", "6 C09"),
+    "C10": ("PROVED (about logic translated from utils/checkpointing.py and the solvers): error choice (no config -> FileNotFoundError, no completed step -> ValueError), step choice (requested, else latest; 0 counts as not given), errors precede instantiation / state assignment / return, the four overrides write exactly the four checkpoint settings, both routes share step rule and field assignment, every field of the property's list is saved and assigned back (partial: a stored policy of the VI family is dropped by the template mechanism - refuted in the model, open known finding). VALIDATED, not proved: byte fidelity of Orbax decoding and the Hydra/OmegaConf round trip - fresh-process save/restore over solvers x shipped problems (tuple parameters, non-default seed/period), default and explicit steps, override combinations, load_checkpoint route, malformed directories, directory digests.",
+            "Coq 8.16.1 kernel; translators gen_restore.py / gen_fields.py; Orbax and Hydra/OmegaConf are third-party contracts modelled (Model/Restore.v) and validated by execution.",
+            "Coq proof of the restore decision logic over source-translated definitions + fresh-process bit-for-bit restore experiments", "6 C10"),
+    "C12": ("For every solver loop: the save calls of solve(k) are exactly the periodic ones followed by the final one; a periodic save (l, s) exists iff checkpointing is on and l is a multiple of f reached without convergence, and s is the solver state of iteration l; labels strictly increase; with frequency 0 no save is attempted; the directory after ANY sequence of save calls is the m most recent of the accepted saves (a save is accepted iff newer than everything before), holds at most m steps, and the last accepted save is what restore returns. Tied by fresh-process runs over a frequency x retention x history x sync/async grid: save calls, directory listing and the content of retained steps (restored in further processes) are compared with the documented set-builder and with the model store.",
+            "Coq 8.16.1 kernel; loop skeleton translated from source; Orbax CheckpointManager (skip when latest >= step, max_to_keep, commit by rename) is a contract (Model/Store.v) validated by the runs.",
+            "Coq proof (save-call characterisation, store = last m accepted) + fresh-process directory experiments", "6 C12"),
 }
 
 man = {
